@@ -12,17 +12,22 @@ pub mod c07_done;
 pub mod c09_registry;
 pub mod c13_tasks;
 pub mod c17_kv;
+pub mod c19_time;
 
 /// Registry for the native replay binary.
 #[cfg(not(kani))]
 pub const HARNESSES: &[(&str, fn())] = &[
     ("c02_arity_typed", c02_arity::c02_arity_typed),
-    ("c02_arity_serialized", c09_registry::c02_arity_serialized),
+    ("c02_arity_serialized_a", c09_registry::c02_arity_serialized_a),
+    ("c02_arity_serialized_b", c09_registry::c02_arity_serialized_b),
+    ("c02_arity_serialized_c", c09_registry::c02_arity_serialized_c),
     ("c06_task_abort_a", c06_cancel::c06_task_abort_a),
     ("c06_task_abort_b", c06_cancel::c06_task_abort_b),
     ("c06_command_abort_a", c06_cancel::c06_command_abort_a),
     ("c06_command_abort_b", c06_cancel::c06_command_abort_b),
     ("c06_aborted_stream_ends", c06_cancel::c06_aborted_stream_ends),
+    ("c06_abort_from_task_root", c06_cancel::c06_abort_from_task_root),
+    ("c06_abort_from_task_spawned", c06_cancel::c06_abort_from_task_spawned),
     ("c09_routing_q1", c09_registry::c09_routing_q1),
     ("c09_routing_q2", c09_registry::c09_routing_q2),
     ("c09_routing_t1", c09_registry::c09_routing_t1),
@@ -45,6 +50,13 @@ pub const HARNESSES: &[(&str, fn())] = &[
     ("c17_wire_ops_set_more", c17_kv::c17_wire_ops_set_more),
     ("c17_wire_ops_get_list", c17_kv::c17_wire_ops_get_list),
     ("c17_wire_results", c17_kv::c17_wire_results),
+    ("c12_response_bytes_0", c09_registry::c12_response_bytes_0),
+    ("c12_response_bytes_1", c09_registry::c12_response_bytes_1),
+    ("c12_response_bytes_3", c09_registry::c12_response_bytes_3),
+    ("c19_k_constructors", c19_time::c19_k_constructors),
+    ("c19_k_std_to_dur", c19_time::c19_k_std_to_dur),
+    ("c19_k_td_to_dur", c19_time::c19_k_td_to_dur),
+    ("c19_k_inst_to_dt_rejects", c19_time::c19_k_inst_to_dt_rejects),
     ("c07_evict_iff", c07_done::c07_evict_iff),
     ("c07_settle_q1", c07_done::c07_settle_q1),
     ("c07_settle_q2", c07_done::c07_settle_q2),
@@ -60,6 +72,7 @@ pub const HARNESSES: &[(&str, fn())] = &[
     ("c07_settle_t10", c07_done::c07_settle_t10),
     ("c07_kept_alive_by_other_task", c07_done::c07_kept_alive_by_other_task),
     ("c07_join_handle_wakes", c07_done::c07_join_handle_wakes),
+    ("c07_two_woken_tasks", c07_done::c07_two_woken_tasks),
 ];
 
 #[cfg(test)]
